@@ -56,6 +56,15 @@
 -/
 namespace Mv.Core
 
+/-- stable insertion sort (structural, so that closed terms evaluate by `decide`) -/
+def insertBy {α : Type} (le : α → α → Bool) (x : α) : List α → List α
+  | [] => [x]
+  | y :: ys => if le x y then x :: y :: ys else y :: insertBy le x ys
+
+def sortBy {α : Type} (le : α → α → Bool) : List α → List α
+  | [] => []
+  | x :: xs => insertBy le x (sortBy le xs)
+
 /-! ## Frames and WAL entries -/
 
 inductive Status where
@@ -411,7 +420,7 @@ def applyRecords (m : Mem) (records : List (Nat × Entry)) (engineAttached : Boo
 def timeLe (a b : Int × Nat) : Bool := decide (a.1 < b.1) || (decide (a.1 = b.1) && decide (a.2 ≤ b.2))
 
 def timeEntries (frames : List Frame) : List (Int × Nat) :=
-  ((frames.filter (fun f => f.status == .active && f.role == .document)).map (fun f => (f.ts, f.id))).mergeSort timeLe
+  sortBy timeLe ((frames.filter (fun f => f.status == .active && f.role == .document)).map (fun f => (f.ts, f.id)))
 
 /-- `flush_tantivy`: when the engine is dirty, commit it, embed a snapshot and append one `Lex`
     record to the WAL (the record stays pending until the next checkpoint); `ft` = footer after the embedded snapshot. -/
@@ -677,7 +686,7 @@ def ownContent (f : Frame) : String :=
 
 def canon (frames : List Frame) (f : Frame) : String :=
   if isManifestDoc f then
-    let children := (frames.filter (fun c => c.status == .active && c.role == .chunk && c.parent == some f.id)).mergeSort chunkLe
+    let children := sortBy chunkLe (frames.filter (fun c => c.status == .active && c.role == .chunk && c.parent == some f.id))
     if children.isEmpty then "err"
     else if some children.length != f.manifest then "err"
     else if children.any (fun c => ownContent c == "err") then "err"
@@ -772,40 +781,44 @@ def computeDataEnd (frames : List Frame) (footer : Nat) : Nat :=
 def Mem.dropHandle (m : Mem) (ft : Nat) : Mem :=
   if m.dirty then (m.commit ft).1 else m
 
-/-- `open_locked` on the file the model state describes; in-memory-only state is reloaded from what
-    was persisted.  `ft` = footer after a WAL replay that rebuilt indexes (trace input). -/
-def Mem.openFrom (m : Mem) (ft : Nat) : Mem :=
-  let m1 : Mem :=
-    { m with
-      pendingInserts := 0, dirty := false, batch := none
-      dataEnd := computeDataEnd m.frames m.footer
-      payloadEnd := payloadRegionEnd m.frames
-      lexEnabled := true, engine := true
-      -- `init_tantivy`: trusts embedded segments; without them the engine is rebuilt from the frames
-      tantivyDirty := !m.tantivySegs
-      lexDocs := if m.tantivySegs then m.lexDocs else fullLexRebuild m.frames
-      vecEnabled := m.pVecMan
-      vecManifest := m.pVecMan
-      vecDim := m.pVecDim
-      vec := if m.pVecMan then m.pVec else none
-      queue := m.pQueue
-      cards := [], enrRecs := [], sketch := [] }
-  -- `recover_wal`
-  let m2 : Mem :=
-    if m1.pending.isEmpty then m1.flushTantivy ft
-    else
-      match applyRecords m1 m1.pending true with
-      | none => m1
-      | some (ma, delta) =>
-        let mb := if delta.nonEmpty then ma.rebuildIndexes delta.embs delta.inserted ft else ma.flushTantivy ft
-        mb.checkpoint
-  -- `load_memories_track`, `load_sketch_track`
-  -- (without a manifest the tracks built by the WAL replay stay as they are)
+/-- first half of `open_locked`: header/TOC are read, in-memory-only state is rebuilt from what was
+    persisted, `init_tantivy` trusts embedded segments (without them the engine is rebuilt from the
+    frames and left dirty) -/
+def Mem.openLoad (m : Mem) : Mem :=
+  { m with
+    pendingInserts := 0, dirty := false, batch := none
+    dataEnd := computeDataEnd m.frames m.footer
+    payloadEnd := payloadRegionEnd m.frames
+    lexEnabled := true, engine := true
+    tantivyDirty := !m.tantivySegs
+    lexDocs := if m.tantivySegs then m.lexDocs else fullLexRebuild m.frames
+    vecEnabled := m.pVecMan
+    vecManifest := m.pVecMan
+    vecDim := m.pVecDim
+    vec := if m.pVecMan then m.pVec else none
+    queue := m.pQueue
+    cards := [], enrRecs := [], sketch := [] }
+
+/-- `recover_wal`; `ft` = footer after a replay that rebuilt indexes / flushed Tantivy -/
+def Mem.recoverWal (m1 : Mem) (ft : Nat) : Mem :=
+  if m1.pending.isEmpty then m1.flushTantivy ft
+  else
+    match applyRecords m1 m1.pending true with
+    | none => m1
+    | some (ma, delta) =>
+      (if delta.nonEmpty then ma.rebuildIndexes delta.embs delta.inserted ft else ma.flushTantivy ft).checkpoint
+
+/-- `load_memories_track`, `load_sketch_track` (without a manifest the tracks built by the WAL
+    replay stay as they are) -/
+def Mem.loadTracks (m2 : Mem) : Mem :=
   { m2 with
     cards := match m2.pCards with | some c => c.1 | none => m2.cards
     enrRecs := match m2.pCards with | some c => c.2 | none => m2.enrRecs
     -- the persisted sketch track stores no frame ids: entries come back numbered 0..n-1 (C39 finding)
     sketch := if m2.pSketch.isEmpty then m2.sketch else List.range m2.pSketch.length }
+
+/-- `open_locked` on the file the model state describes -/
+def Mem.openFrom (m : Mem) (ft : Nat) : Mem := (m.openLoad.recoverWal ft).loadTracks
 
 /-- drop the handle (commit when dirty) and open the file again -/
 def Mem.reopen (m : Mem) (ftDrop ftOpen : Nat) : Mem × Out :=
@@ -828,14 +841,15 @@ def compact : List Frame → Nat → List Frame × Nat
       let (rest, c) := compact fs cur
       ({ f with off := 0, len := 0 } :: rest, c)
 
+/-- the compaction step of `vacuum` on the handle: payload pointers rewritten, Tantivy state cleared -/
+def Mem.compactFrames (m1 : Mem) : Mem :=
+  { m1 with frames := (compact m1.frames 0).1, dataEnd := (compact m1.frames 0).2, engine := false,
+            tantivyDirty := false, tantivySegs := false }
+
 /-- `vacuum()`; `ftCommit` / `ftRebuild` = footers after the leading commit and the final rebuild -/
 def Mem.vacuum (m : Mem) (ftCommit ftRebuild : Nat) : Mem × Out :=
-  match m.commit ftCommit with
-  | (m1, .err e) => (m1, .err e)
-  | (m1, _) =>
-    let (frames, cur) := compact m1.frames 0
-    let m2 : Mem := { m1 with frames := frames, dataEnd := cur, engine := false, tantivyDirty := false, tantivySegs := false }
-    (m2.rebuildIndexes [] [] ftRebuild, .ok)
+  if (m.commit ftCommit).2.isAck then ((m.commit ftCommit).1.compactFrames.rebuildIndexes [] [] ftRebuild, .ok)
+  else m.commit ftCommit
 
 /-- `begin_batch(opts)`: optional WAL pre-sizing, then batch options are recorded -/
 def Mem.beginBatch (m : Mem) (disableAutoCheckpoint : Bool) (ws : Nat) : Mem × Out :=
@@ -877,23 +891,27 @@ deriving Repr, Inhabited
 def Mem.resetWal (m : Mem) : Mem :=
   { m with pending := [], seq := 0, pendingInserts := m.pendingInserts, dirty := false, tantivyDirty := false }
 
+/-- `apply_pending_rebuilds` of the doctor: a requested vector rebuild forgets manifest and in-memory
+    index first (so `rebuild_indexes` writes an EMPTY vector index), otherwise an existing index is
+    loaded to be preserved; then `rebuild_indexes(&[], &[])` and `reset_wal` -/
+def Mem.doctorRebuild (m2 : Mem) (rv : Bool) (ft : Nat) : Mem :=
+  ((if rv then { m2 with vecEnabled := true, vecManifest := false, vec := none, pVec := none }
+    else if m2.vecEnabled && m2.vec.isNone && m2.vecManifest then { m2 with vec := m2.pVec }
+    else m2).rebuildIndexes [] [] ft).resetWal
+
+/-- doctor, first stage: the file is opened (WAL replay) and optionally vacuumed -/
+def Mem.doctorStage1 (m : Mem) (vac : Bool) (ftDrop ftA ftB : Nat) : Mem :=
+  if vac then (((m.dropHandle ftDrop).openFrom ftA).vacuum ftA ftB).1 else (m.dropHandle ftDrop).openFrom ftA
+
+/-- doctor, second stage: the scheduled rebuilds -/
+def Mem.doctorStage2 (m2 : Mem) (any rv : Bool) (ftB : Nat) : Mem :=
+  if any then m2.doctorRebuild rv ftB else m2
+
 /-- `Memvid::doctor(path, opts)` on the closed file (the harness drops the handle first and opens it
     again afterwards): open (with WAL replay), optional vacuum, then — when any rebuild was requested —
-    `apply_pending_rebuilds` (a requested vector rebuild forgets manifest and in-memory index first,
-    so `rebuild_indexes` writes an EMPTY vector index) followed by `reset_wal`.  The frame table is
-    only touched by the vacuum. -/
+    `apply_pending_rebuilds` followed by `reset_wal`.  The frame table is only touched by the vacuum. -/
 def Mem.doctor (m : Mem) (vac rt rl rv : Bool) (ftDrop ftA ftB ftOpen : Nat) : Mem × Out :=
-  let m1 := (m.dropHandle ftDrop).openFrom ftA
-  let m2 := if vac then (m1.vacuum ftA ftB).1 else m1
-  let m3 : Mem :=
-    if rt || rl || rv then
-      let mv : Mem :=
-        if rv then { m2 with vecEnabled := true, vecManifest := false, vec := none, pVec := none }
-        else if m2.vecEnabled && m2.vec.isNone && m2.vecManifest then { m2 with vec := m2.pVec }
-        else m2
-      (mv.rebuildIndexes [] [] ftB).resetWal
-    else m2
-  ((m3.dropHandle ftB).openFrom ftOpen, .ok)
+  ((((m.doctorStage1 vac ftDrop ftA ftB).doctorStage2 (rt || rl || rv) rv ftB).dropHandle ftB).openFrom ftOpen, .ok)
 
 def step (m : Mem) : Op → Mem × Out
   | .create => (Mem.create, .ok)
@@ -950,7 +968,7 @@ def vecLe (a b : VecEnt) : Bool := decide (a.id ≤ b.id)
 
 def showVec : Option (List VecEnt) → String
   | none => "none"
-  | some l => showList "," ((l.mergeSort vecLe).map fun e => s!"{e.id}:{e.dim}:{e.tok}")
+  | some l => showList "," ((sortBy vecLe l).map fun e => s!"{e.id}:{e.dim}:{e.tok}")
 
 def showTime : Option (List (Int × Nat)) → String
   | none => "none"
@@ -964,7 +982,7 @@ def obsHead (m : Mem) : String :=
   s!"dirty={if m.dirty then 1 else 0} ws={m.walSize} pe={m.payloadEnd} de={m.dataEnd} ft={m.footer} " ++
   s!"cap={m.capacityLimit} ve={if m.vecEnabled then 1 else 0} vec={showVec m.vec} time={showTime m.time} " ++
   s!"td={if m.tantivyDirty then 1 else 0} q={showNats m.queue} cards={showNats m.cards} " ++
-  s!"er={showNats (m.enrRecs.mergeSort natLe)} sk={showNats m.sketch} " ++
+  s!"er={showNats (sortBy natLe m.enrRecs)} sk={showNats m.sketch} " ++
   s!"batch={match m.batch with | none => "-" | some true => "1" | some false => "0"}"
 
 def obs (m : Mem) : String :=
